@@ -262,13 +262,19 @@ Proof.
   induction Hc as [|kv cs H1 H2 IH]; intros acc Hacc; cbn [fold_left]; [exact Hacc|].
   apply IH. apply Forall_aset; [exact Hacc|]. destruct kv; exact H1.
 Qed.
+Lemma load1_ok s n : nok n -> nok (load1 s n).
+Proof.
+  intros Hn. unfold load1. destruct (n_loaded n); [exact Hn|].
+  destruct (scan_children s n) as [cs|e] eqn:E; [|exact Hn].
+  apply set_loaded_ok; [eapply scan_children_ok; eassumption|exact Hn].
+Qed.
 Lemma h_load_dir p : hoare TT (load_dir p) (fun _ _ => True).
 Proof.
   unfold load_dir. eapply h_bind; [apply h_get_node|]. intros n. cbn beta.
   intros s Hi (Hn & Hg & _). destruct (n_loaded n).
   - cbn. same_state.
   - destruct (scan_children s n) as [cs|e] eqn:E.
-    + destruct (h_mod_node p (set_loaded cs) (fun m Hm => set_loaded_ok cs m (scan_children_ok s n cs Hn E) Hm) s Hi I) as (A1 & A2 & A3).
+    + destruct (h_mod_node p (load1 s) (fun m Hm => load1_ok s m Hm) s Hi I) as (A1 & A2 & A3).
       split; [exact A1|split; [exact A2|auto]].
     + cbn. same_state.
 Qed.
@@ -654,6 +660,9 @@ Proof.
   eapply h_bind_pure; [apply h_get_node_pure|]. intros n2 Hn2.
   eapply h_bind_pure; [apply h_get_node_pure|]. intros pn' Hpn'.
   eapply h_seq.
+  { apply h_if; intros _; [|hret]. apply h_pure_fn. intros s. destruct (lower_has_child s (n_reals pn') nm); reflexivity. }
+  intros need0.
+  eapply h_seq.
   { apply h_if; intros _; [|hret].
     eapply h_bind_pure; [apply h_upper_real; exact Hpn'|]. intros pr Hpr.
     eapply h_seq; [apply h_mutate_real; apply Hpr|]. intros _. hret. }
@@ -838,11 +847,8 @@ Proof.
   induction fuel as [|f IH]; intros n Hn; cbn [load_node]; [exact Hn|].
   destruct (n_wh n); [exact Hn|].
   destruct (node_stat s n) as [[m x ch| | |]|]; try exact Hn.
-  set (n1 := if n_loaded n then n else match scan_children s n with Ok cs => set_loaded cs n | Err _ => n end).
-  assert (Hn1 : nok hu n1).
-  { unfold n1. destruct (n_loaded n); [exact Hn|].
-    destruct (scan_children s n) as [cs|e] eqn:E; [|exact Hn].
-    apply set_loaded_ok; [eapply scan_children_ok; eassumption|exact Hn]. }
+  set (n1 := load1 s n).
+  assert (Hn1 : nok hu n1) by (apply load1_ok; exact Hn).
   apply nok_mk; [apply nok_reals; exact Hn1|].
   pose proof (nok_ch hu n1 Hn1) as Hc. induction Hc as [|kv l H1 H2 IHl]; cbn [map]; constructor; auto.
   cbn [snd]. apply IH; exact H1.
